@@ -385,9 +385,43 @@ def r_zerofill(db, rep):
                         if wit is not None:
                             rep.notes.append("%s: fill loop at %s covers %s elements, %s allocated (e.g. %s); not enforced" % (
                                 g.qn, g.nloc(ln), symx.canon(b), symx.canon(esym), wit))
+                    # the bitmap is handed, with a length in bits, to a bit-sequence builder / constructor: every word that holds
+                    # one of those bits must have been filled (the builder copies / saves whole words up to that length)
+                    for ln, cond in loops:
+                        b = pinned_sym(db, g, cond["rhs"], None, None)
+                        if cond["op"] == "<=":
+                            b = symx.mk_op("+", b, symx.C(1))
+                        for cn in g.calls():
+                            args = cn.get("args", [])
+                            if len(args) < 2 or resolved_path(g, args[0]) != path:
+                                continue
+                            frec = cn.get("frec") or cn.get("rec") or ""
+                            if not (frec.startswith("cds_static::BitSequence") or frec.startswith("cds_utils::BitString")):
+                                continue
+                            if not (cfg.dominates(cfg.position(cond), cfg.position(cn)) if cfg.position(cond) and cfg.position(cn) else False):
+                                continue
+                            L = pinned_sym(db, g, args[1], None, None)
+                            if symx.has_unknown(b) or symx.has_unknown(L) or any(a[0] == "local" for a in symx.atoms(b) | symx.atoms(L)):
+                                continue          # a run-time counter: the two extents cannot be related statically
+                            rep.ob()
+                            import itertools
+                            syms = sorted(symx.atoms(b) | symx.atoms(L), key=repr)
+                            grid = symx.GRID if len(syms) <= 2 else [0, 1, 2, 7, 31, 32, 33, 64, 100]
+                            for vals in itertools.islice(itertools.product(grid, repeat=len(syms)), 6000):
+                                val = dict(zip(syms, vals))
+                                vb, vl = symx.evaluate(b, val), symx.evaluate(L, val)
+                                if vb is None or vl is None:
+                                    continue
+                                if vb * at["bits"] < vl:
+                                    rep.viol("%s#%s-consumed-beyond-fill" % (g.qn, fmt_path(g, path).replace("this->", "")), g.nloc(cn),
+                                             "%s fills %s words of %s but hands %s bits of it to %s (e.g. %s: %d words filled, %d bits used): "
+                                             "the last word is indeterminate and ends up in the bit sequence and its saved image" % (
+                                                 g.qn, symx.canon(b), fmt_path(g, path), symx.canon(L), cn.get("fn"),
+                                                 {symx.canon(k): v for k, v in val.items()}, vb, vl), g.qn)
+                                    break
                     # memset / calloc style
                     for n in g.calls():
-                        if callee_name(n) == "memset" and n.get("args") and access_path(g, n["args"][0]) == path:
+                        if callee_name(n) in ("memset", "bzero", "fill", "fill_n") and n.get("args") and resolved_path(g, n["args"][0]) == path:
                             good = True
                     if not good:
                         rep.viol("%s#%s-not-filled" % (g.qn, fmt_path(g, path).replace("this->", "")), g.nloc(newn),
